@@ -81,7 +81,10 @@ fn reparse(l: &Locale) -> &'static str {
     }
 }
 pub fn loc_roundtrip(v: &[u8]) -> String {
-    match Locale::from_bytes(v) { Ok(l) => format!("OK {}", reparse(&l)), Err(_) => "ERR".into() }
+    match Locale::from_bytes(v) {
+        Ok(l) => if let Some(e) = fmt_flags(&l).or_else(|| fmt_flags(&l.id)) { e } else { format!("OK {}", reparse(&l)) },
+        Err(_) => "ERR".into(),
+    }
 }
 pub fn extmap(v: &[u8]) -> String {
     let r = ExtensionsMap::from_bytes(v);
